@@ -112,6 +112,11 @@ def descr(c):
 
 
 # ---- random expression trees over the combinators -----------------------------------------------------
+def _nonzero(z):
+    """a python scalar 0 turns the operand into ZeroOp() (scalar result): that shortcut and known finding KF-03 belong to C04"""
+    return z if any(z) else [1, 1]
+
+
 def gen_tree(rng, tier):
     def leaf(m, n):
         return {'t': 'leaf', 'm': m, 'n': n, 'M': opzoo.rand_gauss(rng, m * n, -2, 2)}
@@ -126,21 +131,55 @@ def gen_tree(rng, tier):
         if k == 'sum':
             return {'t': 'sum', 'a': tree(m, n, depth - 1), 'b': tree(m, n, depth - 1)}
         if k == 'prodr_s':
-            return {'t': 'prodr', 's': [opzoo.rand_gauss(rng, 1)[0]] * m, 'scalar': True, 'a': tree(m, n, depth - 1)}
+            return {'t': 'prodr', 's': [_nonzero(opzoo.rand_gauss(rng, 1)[0])] * m, 'scalar': True, 'a': tree(m, n, depth - 1)}
         if k == 'prodr_t':
             return {'t': 'prodr', 's': opzoo.rand_gauss(rng, m), 'scalar': False, 'a': tree(m, n, depth - 1)}
         if k == 'prodl_s':
-            return {'t': 'prodl', 's': [opzoo.rand_gauss(rng, 1)[0]] * n, 'scalar': True, 'a': tree(m, n, depth - 1)}
+            return {'t': 'prodl', 's': [_nonzero(opzoo.rand_gauss(rng, 1)[0])] * n, 'scalar': True, 'a': tree(m, n, depth - 1)}
         if k == 'prodl_t':
             return {'t': 'prodl', 's': opzoo.rand_gauss(rng, n), 'scalar': False, 'a': tree(m, n, depth - 1)}
         return {'t': 'adj', 'a': tree(n, m, depth - 1)}
+    fixed = []
+    for m in (2, 3):
+        A, B = leaf(m, m), leaf(m, m)
+        idl = {'t': 'id', 'n': m}
+        s3 = {'t': 'sum', 'a': {'t': 'sum', 'a': idl, 'b': A}, 'b': B}      # IdentityOp() + A + B: the first summand returns its input
+        fixed += [s3, {'t': 'adj', 'a': s3}, {'t': 'prodr', 's': [[0, 2]] * m, 'scalar': True, 'a': s3},
+                  {'t': 'comp', 'a': {'t': 'adj', 'a': s3}, 'b': s3}, {'t': 'sum', 'a': {'t': 'sum', 'a': {'t': 'comp', 'a': {'t': 'adj', 'a': A}, 'b': A}, 'b': idl}, 'b': B}]
+    fixed = [{'cls': 'tree', 'm': _tree_rows(t_), 'n': _tree_cols(t_), 'tree': t_} for t_ in fixed]
     n = 40 if tier == 'quick' else 800
-    return [{'cls': 'tree', 'm': (m := rng.randint(1, 4)), 'n': (nn := rng.randint(1, 4)), 'tree': tree(m, nn, rng.randint(1, 3))} for _ in range(n)]
+    return fixed + [{'cls': 'tree', 'm': (m := rng.randint(1, 4)), 'n': (nn := rng.randint(1, 4)), 'tree': tree(m, nn, rng.randint(1, 3))} for _ in range(n)]
+
+
+def _tree_rows(t):
+    k = t['t']
+    if k == 'leaf':
+        return t['m']
+    if k == 'id':
+        return t['n']
+    if k == 'adj':
+        return _tree_cols(t['a'])
+    return _tree_rows(t['a'])
+
+
+def _tree_cols(t):
+    k = t['t']
+    if k == 'leaf':
+        return t['n']
+    if k == 'id':
+        return t['n']
+    if k == 'adj':
+        return _tree_rows(t['a'])
+    if k == 'comp':
+        return _tree_cols(t['b'])
+    return _tree_cols(t['a'])
 
 
 def _build_tree(t):
     import mrpro.operators as ops
     k = t['t']
+    if k == 'id':
+        return ops.IdentityOp()
     if k == 'leaf':
         return ops.EinsumOp(opzoo.to_c(t['M'], [t['m'], t['n']]), '... i j, ... j -> ... i')
     if k == 'comp':
@@ -156,6 +195,8 @@ def _build_tree(t):
 
 def _coq_tree(t):
     k = t['t']
+    if k == 'id':
+        return f'(idop (R:=GRing) {natlit(t["n"])})'
     if k == 'leaf':
         m, n = t['m'], t['n']
         rows = [t['M'][i * n:(i + 1) * n] for i in range(m)]
